@@ -8,6 +8,8 @@ def jobs(tier):
             for ident in (0, 1):
                 js.append({"id": f"O1.stream.n{n}.policy{policy}.identity{ident}", "func": "VerifH_C10_Stream",
                            "conf": {"n": n, "policy": policy, "identity": ident}, "_obligation": "O1+O2", "_covers": ["streamed"], "unwind": 30})
+    for n in ((1, 2) if tier == "quick" else (1, 2, 3)):
+        js.append({"id": f"O3.show-deleted.n{n}", "func": "VerifH_C10_ShowDeleted", "conf": {"n": n}, "_obligation": "O3", "_covers": ["fetched"], "unwind": 60})
     js.append({"id": "O2.no-caching", "func": "VerifH_C10_NoCaching", "conf": {}, "_obligation": "O2", "_covers": ["ran"]})
     js.append({"id": "twin", "func": "VerifH_C10_Reach", "conf": {}, "_obligation": "vacuity", "_expect": "twin", "_covers": ["end"]})
     return js
